@@ -88,10 +88,19 @@ func (c *Ctx) Thorough() bool { return c.Tier == "thorough" }
 
 // N picks a case count by tier.
 func (c *Ctx) N(quick, thorough int64) int64 {
+	n := quick
 	if c.Thorough() {
-		return thorough
+		n = thorough
 	}
-	return quick
+	// development aid only (never set by the registered commands): cap every family's case count
+	if v := os.Getenv("VERIF_DEV_N"); v != "" {
+		var d int64
+		fmt.Sscan(v, &d)
+		if d > 0 && d < n {
+			n = d
+		}
+	}
+	return n
 }
 
 // Case is the handle a family body receives for one case.
